@@ -416,8 +416,8 @@ class Table:
         if 1 <= l <= self.b['argc']:
             out.append((0, -1, ('param', l, ())))
         for d in self.D.defs.get(l, []):
-            if d[0] == 'assign': out.append((d[1], d[2], self.ex_rv(d[3]['rv'])))
-            elif d[0] == 'call': out.append((d[1], None, self.ex_call(d[1], d[3])))
+            if d[0] == 'assign' and not d[3]['lhs']['proj']: out.append((d[1], d[2], self.ex_rv(d[3]['rv'])))
+            elif d[0] == 'call' and not d[3]['dest']['proj']: out.append((d[1], None, self.ex_call(d[1], d[3])))
         return out
 
     def local_cases(self, l, at):
